@@ -1,6 +1,6 @@
 SPECIFICATION Spec
 CONSTANTS Kinds = {"lr", "glr", "lrrec", "lrld0"}
-  FailKinds = {"conflict", "initerror"}
+  FailKinds = {"conflict"}
   Inputs = {"ok", "bad", "act", "rec", "kw"}
   MaxSteps = 3
 INVARIANT AugRestored
